@@ -74,6 +74,12 @@ def run_group(args):
             FixedClock.script = [_dt(1970, 1, 1, 0, 0, 0)] * (20 * len(tasks) + 20)
         try:
             res = lab.run_tasks(tasks, disable_progress=True, disable_top=True)
+            # tasks that compare equal (1 == 1.0 == True) but are different tasks with different keys,
+            # cached by separate calls: three entries, three tasks to list
+            eq_tasks = [A.Foo(p=v, q='eqv') for v in (1, 1.0, True)]
+            for t in eq_tasks:
+                lab.run_tasks([t], disable_progress=True, disable_top=True)
+            tasks = tasks + eq_tasks
         finally:
             lt_base.datetime = orig_dt
         # expected cached set: every cacheable task anywhere in the group (by canonical form)
@@ -156,8 +162,15 @@ def run_group(args):
                 continue
             WORLD.reset(epoch=2)
             lab2 = labtech.Lab(storage=storage, runner_backend='serial', notebook=False)
+            eq_keys = {t.cache_key for t in eq_tasks}
             try:
-                r2 = lab2.run_tasks(good, disable_progress=True, disable_top=True)
+                # (tasks that compare equal to one another are separate tasks only across calls)
+                r2 = lab2.run_tasks([g for g in good if g.cache_key not in eq_keys], disable_progress=True, disable_top=True)
+                separately = []
+                for g in good:
+                    if g.cache_key in eq_keys:
+                        one = lab2.run_tasks([g], disable_progress=True, disable_top=True)
+                        separately.append((g, one.get(g, '<missing>')))
             except BaseException as e:  # noqa
                 bad(f'rerun-raised:{type(e).__name__}', f'run_tasks(cached_tasks([{qt.__qualname__}])) raised {type(e).__name__}: {e}')
                 continue
@@ -166,8 +179,9 @@ def run_group(args):
             for g in good:
                 orig = expected[(qt, canon(g))]
                 stored = orig_value(orig, res, storage)
-                if g not in r2 or r2[g] != stored:
-                    bad('rerun-wrong-value', f'loaded {r2.get(g)!r} for {describe_task(orig)}, stored {stored!r}')
+                got_v = next((v for k, v in separately if k is g), None) if g.cache_key in eq_keys else r2.get(g, '<missing>')
+                if got_v != stored:
+                    bad('rerun-wrong-value', f'loaded {got_v!r} for {describe_task(orig)}, stored {stored!r}')
         return len(group), out
     finally:
         if isinstance(storage, MemStorage):
@@ -224,6 +238,13 @@ def run(tier: str, seed: int) -> Result:
     work += [('fsmem', g) for g in make_groups(fs_ts, cyc)]
     viols = []
     n = 0
+    # task types defined in the main script, cached by real spawn / fork workers, listed afterwards
+    from .c06 import main_script_case
+    for res, cnt in pmap(main_script_case, [('spawn', 'serial'), ('fork', 'spawn')]):
+        n += cnt
+        for key, msg, size in res:
+            if key.startswith('main-script'):
+                viols.append(Violation('C09', key, msg, {'tier': tier, 'clause': key, 'msg': msg}, size=900))
     for cnt, res in pmap(run_group, work):
         n += cnt
         for key, msg, size in res:
